@@ -3,6 +3,7 @@
 package vexec
 
 import (
+	"context"
 	"errors"
 	"io"
 )
@@ -50,12 +51,7 @@ func (w *World) wait(c *Cmd) error {
 }
 
 // Ctx exposes the command's context (nil if created with Command).
-func (c *Cmd) Ctx() interface{ Done() <-chan struct{} } {
-	if c.ctx == nil {
-		return nil
-	}
-	return c.ctx
-}
+func (c *Cmd) Ctx() context.Context { return c.ctx }
 
 // NewExitError builds the error Wait returns for a non-zero exit / signal.
 func NewExitError(exit int, signal int) *ExitError {
